@@ -58,6 +58,12 @@ def generate(seed, tier):
         if op['kind'] in ('vendor_bin', 'init_existing_spi'):
             op['spoof'] = 'q' if r.random() < 0.6 else False
         ops.append(op)
+    if r.random() < 0.5:
+        # well-formed but unexpected: copies of authentic datagrams D has already received (requests and responses of the legitimate peer),
+        # played to it again later
+        for _ in range(r.randint(1, 5)):
+            ops.append({'t': round(r.uniform(1.5, T), 3), 'op': 'call', 'name': 'hostile', 'node': 'B', 'kind': 'replay', 'pick': r.randrange(1000),
+                        'seed': r.randrange(2 ** 31)})
     for _ in range(r.randint(0, 4)):
         ops.append({'t': round(r.uniform(0.3, T), 3), 'op': 'call', 'name': 'kodd', 'node': 'B',
                     'kind': r.choice(['unknown_type', 'truncated', 'acquire_unknown_peer', 'acquire_unknown_index',
@@ -112,7 +118,13 @@ def _handlers(ctx):
         if op.get('spoof') == 'q':
             o['spoof'] = True
             peer = meta.get('q_addr', peer)
-        data, src = hostile.make(o, wire, dst, peer, meta['family'])
+        if op['kind'] == 'replay':
+            got = [d for d in ctx.get('delivered', {}).get(op['node'], []) if wire.is_authentic(d)]
+            if not got:
+                return
+            data, src = got[-1 - (op['pick'] % min(len(got), 8))], peer
+        else:
+            data, src = hostile.make(o, wire, dst, peer, meta['family'])
         had_sa = any(sa.ike_sa_keyring is not None for sa in node.ike_sas())
         ctx['reach']['hostile_delivered'] = ctx['reach'].get('hostile_delivered', 0) + 1
         ctx['reach']['hostile.' + op['kind']] = ctx['reach'].get('hostile.' + op['kind'], 0) + 1
@@ -281,6 +293,8 @@ def _execute(scenario, with_hostile=True):
             pending = None
 
             def before_delivery(self, node, data, src, dst, meta):
+                if not str((meta or {}).get('sender', '')).startswith('forge.') and node.state == 'running':
+                    ctx.setdefault('delivered', {}).setdefault(node.name, []).append(bytes(data))      # (what the replayer may play again)
                 if not str((meta or {}).get('sender', '')).startswith('forge.') or timers_due(node) or node.has_readable() and len(node.udp) > 1:
                     return
                 if any(s_.queue for s_ in node.kernel.event_socks):
